@@ -184,10 +184,11 @@ def c11_cases(tier):
             if res["exit"] != 0 or not res["out"] or not res["out"].get("ok"):
                 return "generation failed for field named %s" % kw
             t = norm(res["out"]["tokens"])
-            if ("pub%s_:" % kw) not in t:
-                return "keyword field `%s` is not escaped as `%s_`" % (kw, kw)
-            if ('#[serde(rename="%s")]pub%s_:' % (kw, kw)) not in t:
-                return "escaped field `%s_` does not keep the wire key `%s`" % (kw, kw)
+            ident = kw.lower() + "_"      # field identifiers are snake_cased first (`Self` -> `self`), then escaped
+            if ("pub%s:" % ident) not in t:
+                return "keyword field `%s` is not escaped as `%s`" % (kw, ident)
+            if ('#[serde(rename="%s")]pub%s:' % (kw, ident)) not in t:
+                return "escaped field `%s` does not keep the wire key `%s`" % (ident, kw)
             try:
                 import subprocess as sp
                 # the emitted items must at least parse as Rust
@@ -289,6 +290,166 @@ def c06_cases(tier):
                 return None   # died: no code was generated (C17 covers crashes)
             if res["out"].get("ok"):
                 return "code was generated for an invalid operation (%s)" % what
+            return None
+        yield case, oracle
+
+
+def _structs(t):
+    """{name: {field: (attrs, type)}} of the `pub struct`s in whitespace-free tokens"""
+    out = {}
+    for m in re.finditer(r"pubstruct([A-Za-z0-9_]+)\{([^{}]*)\}", t):
+        fields = {}
+        for fm in re.finditer(r"((?:#\[[^\]]*\])*)pub([A-Za-z0-9_#]+):([^,]*),?", m.group(2)):
+            fields[fm.group(2)] = (fm.group(1), fm.group(3))
+        out[m.group(1)] = fields
+    return out
+
+
+def c04_cases(tier):
+    """Variables / input objects: rename keeps the GraphQL name, skip_serializing_if exactly on nullable members when the option is on"""
+    types = ["Int", "Int!", "[Int]", "[Int!]", "[Int!]!", "[[Int!]]", "[[Int]!]!"] if tier == "quick" else [e for (e, _) in type_exprs(3)]
+    for ty in types:
+        for skip in (False, True):
+            schema = "input Filter { plain: %s type: %s } type Query { f(a: %s, type: %s, filter: Filter): Int }" % (ty, ty, ty, ty)
+            q = "query Q($a: %s, $type: %s, $filter: Filter) { f(a: $a, type: $type, filter: $filter) }" % (ty, ty)
+            case = {"schema": schema, "query": q, "options": {"mode": "cli", "skip_serializing_none": skip}}
+
+            def oracle(res, ty=ty, skip=skip):
+                if res["exit"] != 0 or not res["out"] or not res["out"].get("ok"):
+                    return "generation failed for variables of type %s" % ty
+                st = _structs(norm(res["out"]["tokens"]))
+                nullable = not ty.endswith("!")
+                for (sname, plain, kw) in (("Variables", "a", "type_"), ("Filter", "plain", "type_")):
+                    fs = st.get(sname)
+                    if fs is None or plain not in fs or kw not in fs:
+                        return "struct %s lacks the expected members (%s)" % (sname, sorted(fs or []))
+                    for f in (plain, kw):
+                        attrs = fs[f][0]
+                        has_skip = 'skip_serializing_if="Option::is_none"' in attrs
+                        if has_skip != (skip and nullable):
+                            return "%s.%s of type %s: skip_serializing_if is %s (option %s)" % (sname, f, ty, "present" if has_skip else "absent", "on" if skip else "off")
+                    if 'rename="type"' not in fs[kw][0]:
+                        return "%s.type_ does not keep the wire key `type`" % sname
+                    if "rename" in fs[plain][0]:
+                        return "%s.%s is renamed although the identifier equals the GraphQL name" % (sname, plain)
+                return None
+            yield case, oracle
+
+
+def c05_cases(tier):
+    """operationName is the unmodified name of the selected operation; the query text is the document verbatim"""
+    doc = "query heights_query($n: Int) { f(n: $n) }\n\n# a comment\nquery   Echo { g }\nmutation do_it { h }"
+    schema = "schema { query: Query mutation: M } type Query { f(n: Int): Int g: Int } type M { h: Int }"
+    for nz in ("none", "rust"):
+        for (sel, raw) in ((None, None), ("Echo", "Echo"), ("heights_query" if nz == "none" else "HeightsQuery", "heights_query"), ("do_it" if nz == "none" else "DoIt", "do_it")):
+            opts = {"mode": "cli", "normalization": nz}
+            if sel:
+                opts["operation_name"] = sel
+            case = {"schema": schema, "query": doc, "options": opts}
+
+            def oracle(res, sel=sel, raw=raw, nz=nz):
+                if res["exit"] != 0 or not res["out"] or not res["out"].get("ok"):
+                    return "generation failed (operation %s, normalization %s)" % (sel, nz)
+                toks = res["out"]["tokens"]
+                names = re.findall(r'OPERATION_NAME\s*:\s*&\s*(?:\'static\s*)?str\s*=\s*"([^"]*)"', toks)
+                want = [raw] if raw else ["heights_query", "Echo", "do_it"]
+                if sorted(names) != sorted(want):
+                    return "OPERATION_NAME constants %s, expected %s (selected %s, normalization %s)" % (names, want, sel, nz)
+                for qm in re.findall(r'QUERY\s*:\s*&\s*(?:\'static\s*)?str\s*=\s*"((?:[^"\\]|\\.)*)"', toks):
+                    txt = bytes(qm, "utf-8").decode("unicode_escape")
+                    if txt != doc:
+                        return "QUERY is not the document verbatim"
+                return None
+            yield case, oracle
+
+
+def c12_cases(tier):
+    """input objects: no cycle of by-value (un-Boxed, un-Vec'ed) members"""
+    graphs = [
+        "input A { a: A }",
+        "input A { b: B } input B { a: A }",
+        "input A { b: B! } input B { a: A }",
+        "input A { bs: [B] } input B { a: A }",
+        "input NodeFilter { owner: OwnerFilter edge: EdgeFilter } input EdgeFilter { label: LabelFilter node: NodeFilter } input OwnerFilter { viaEdge: EdgeFilter } input LabelFilter { onNode: NodeFilter }",
+        "input A { x: Int b: B c: C } input B { c: C } input C { a: A b: B }",
+        "input A { b: B } input B { c: C } input C { d: D } input D { b: B }",
+    ]
+    for g in graphs:
+        case = {"schema": g + " type Query { f(a: A): Int }", "query": "query Q($a: A) { f(a: $a) }", "options": {"mode": "cli"}}
+        if "NodeFilter" in g:
+            case = {"schema": g + " type Query { f(a: NodeFilter): Int }", "query": "query Q($a: NodeFilter) { f(a: $a) }", "options": {"mode": "cli"}}
+
+        def oracle(res, g=g):
+            if res.get("timeout"):
+                return "generation does not terminate on %s" % g
+            if res["exit"] != 0 or not res["out"] or not res["out"].get("ok"):
+                return "generation failed on %s" % g
+            st = _structs(norm(res["out"]["tokens"]))
+            names = [n for n in st if n != "Variables" and n != "ResponseData"]
+            edges = {n: set() for n in names}
+            for n in names:
+                for f, (_, ty) in st[n].items():
+                    if "Box<" in ty or "Vec<" in ty:
+                        continue
+                    for m in names:
+                        if re.search(r"(?<![A-Za-z0-9_])%s(?![A-Za-z0-9_])" % re.escape(m), ty):
+                            edges[n].add(m)
+            color = {}
+
+            def dfs(u):
+                color[u] = 1
+                for v in edges[u]:
+                    if color.get(v) == 1 or (v not in color and dfs(v)):
+                        return True
+                color[u] = 2
+                return False
+            for n in names:
+                if n not in color and dfs(n):
+                    return "the generated input structs contain a cycle of by-value members (infinite size) for `%s`" % g
+            return None
+        yield case, oracle
+
+
+def _wire(t):
+    """the wire-relevant projection of generated tokens: serde keys/tags, enum wire strings, operation name and query text"""
+    lits = re.findall(r'#\[serde\((?:rename|tag)="[^"]*"\)\]', t)
+    lits += re.findall(r'=>"[^"]*"', t) + re.findall(r'"[^"]*"=>', t)
+    lits += re.findall(r'OPERATION_NAME:&(?:\'static)?str="[^"]*"', t)
+    # the variants of `__typename`-tagged enums are matched against the tag by their identifier
+    for m in re.finditer(r'#\[serde\(tag="__typename"\)\](?:#\[[^\]]*\])*pubenum[A-Za-z0-9_]+\{([^{}]*)\}', t):
+        for v in m.group(1).split(","):
+            v = re.sub(r"#\[[^\]]*\]", "", v)
+            v = re.sub(r"\(.*\)$", "", v)
+            if v:
+                lits.append("tagged-variant:" + v)
+    return sorted(lits), len(re.findall(r"skip_serializing_if", t)), len(re.findall(r"deserialize_with", t)), len(re.findall(r"serde\(flatten\)", t))
+
+
+def c09_cases(tier):
+    """the wire-relevant projection of the generated code is the same under every combination of the wire-neutral options"""
+    schema = ("interface Named { name: String } type HTTPEndpoint implements Named { name: String url: String } type rate_limit implements Named { name: String n: Int } "
+              "union Thing = HTTPEndpoint | rate_limit enum Kind { A_b where } scalar Date input In { type: Kind when_at: Date ids: [ID!] } "
+              "type Query { named: Named thing: Thing kind(in: In, plain_arg: Int): Kind when: Date }")
+    q = ("fragment N on Named { __typename name } query my_op($in: In, $plain_arg: Int) { named { __typename ...N ... on HTTPEndpoint { url } } "
+         "thing { __typename ... on rate_limit { n } } kind(in: $in, plain_arg: $plain_arg) when }")
+    base = {"mode": "cli"}
+    variants = [{"normalization": "rust"}, {"response_derives": "Debug,Clone,PartialEq"}, {"variables_derives": "Debug,Default"},
+                {"custom_scalars_module": "crate::scalars"}, {"serde_path": "my_serde"},
+                {"normalization": "rust", "response_derives": "Debug", "custom_scalars_module": "crate::s"}]
+    base_res = run_case({"schema": schema, "query": q, "options": base})
+    for v in variants:
+        case = {"schema": schema, "query": q, "options": dict(base, **v)}
+
+        def oracle(res, v=v):
+            if not base_res["out"] or not base_res["out"].get("ok"):
+                return None
+            if res["exit"] != 0 or not res["out"] or not res["out"].get("ok"):
+                return "generation failed under the wire-neutral options %s" % v
+            a, b = _wire(norm(base_res["out"]["tokens"])), _wire(norm(res["out"]["tokens"]))
+            if a != b:
+                da = [x for x in a[0] if x not in b[0]][:3]
+                db = [x for x in b[0] if x not in a[0]][:3]
+                return "options %s change the wire-relevant text: default has %s, this has %s (counts %s vs %s)" % (v, da, db, a[1:], b[1:])
             return None
         yield case, oracle
 
@@ -404,7 +565,7 @@ def c15_cases(tier):
             yield case, oracle
 
 
-FAMILIES = {"C15": c15_cases, "C13": c13_cases, "C03": c13_cases, "C14": c14_cases, "C16": c16_cases, "C17": c17_cases, "C11": c11_cases, "C08": c08_cases, "C10": c10_cases, "C06": c06_cases}
+FAMILIES = {"C15": c15_cases, "C13": c13_cases, "C03": c13_cases, "C14": c14_cases, "C16": c16_cases, "C17": c17_cases, "C11": c11_cases, "C08": c08_cases, "C10": c10_cases, "C06": c06_cases, "C04": c04_cases, "C05": c05_cases, "C12": c12_cases, "C09": c09_cases}
 
 
 def search_witness(pid, obligation, tier):
